@@ -563,6 +563,13 @@ def gen_handler(rng, k, p_bad=0.3):
                                       "%j-%H", "T%H"])
     if rng.random() < 0.1:
         h["formatter"] = "logging.Formatter"
+    elif rng.random() < 0.08:
+        # a formatter callable of the application that knows nothing about
+        # styles: records still render in the configured format and style
+        h["formatter"] = rng.choice(["zcsim.logfmt.PlainFormatter",
+                                     "zcsim.logfmt.KwFormatter",
+                                     "zcsim.logfmt.make_formatter",
+                                     "zcsim.logfmt.make_formatter_kw"])
     return h
 
 
